@@ -5,7 +5,7 @@ from functools import partial
 from typing import Callable, Dict, Type, TypeVar
 
 from ..utils import exceptions as exc
-from ..utils.compat import is_classvar, is_final
+from ..utils.compat import is_classvar, is_final, ForwardRef, evaluate_forward_ref
 from ..utils.datastructures import unprovided
 from ..utils.functional import pop
 from ..utils.transform import TypeTransformer
@@ -122,6 +122,15 @@ class ClassParser(BaseParser):
         global_vars = self.globals
 
         for key, annotation in annotations.items():
+            if isinstance(annotation, str):
+                # postponed evaluation (from __future__ import annotations): evaluate the way
+                # typing.get_type_hints does for class attributes, where ClassVar[...] and Final[...]
+                # are legal; a name that is not defined yet leaves the string for the first parse
+                try:
+                    annotation = evaluate_forward_ref(
+                        ForwardRef(annotation, is_argument=False, is_class=True), global_vars, None)
+                except Exception:  # noqa: reported by the field generation below
+                    pass
             if (
                 not self.validate_class_field_name(key)
                 or is_classvar(annotation)
